@@ -1,4 +1,5 @@
 import WV.Proofs.C17_Term
+import WV.Proofs.C17_Mono
 
 /-!
 C17 helper lemmas, part 8: every event, every thunk, every turn and every run preserve the control
@@ -9,7 +10,7 @@ open WV WV.Gen WV.C17
 
 variable {ps : String} {pend : List Thunk} {w : World}
 
-theorem tInput_inv (h : Inv ps pend w) (i : Terminator.Input) : Inv ps pend (tInput termFuel i w).1 := by
+theorem tInput_inv (h : Inv ps pend w) (htm : TimerOk w) (i : Terminator.Input) : Inv ps pend (tInput termFuel i w).1 := by
   simp only [termFuel, tInput]
   cases hts : w.ts <;> cases i <;> simp only [Terminator.table]
   all_goals first
@@ -24,7 +25,7 @@ theorem tInput_inv (h : Inv ps pend w) (i : Terminator.Input) : Inv ps pend (tIn
     simp only [tOuts]
     by_cases hm : w.hasMgr = true
     · rw [if_pos hm]
-      obtain ⟨e1, e2⟩ := stopRow_inv h hts hm
+      obtain ⟨e1, e2⟩ := stopRow_inv h hts hm htm
       rw [andThen_ok e1]
       exact e2
     · rw [if_neg hm]
@@ -33,14 +34,14 @@ theorem tInput_inv (h : Inv ps pend w) (i : Terminator.Input) : Inv ps pend (tIn
       exact inv_core_eq (InvC.stopNoMgr (k := core w) h hm' hts) rfl
 
 /-- what one call taken from the eventual queue does -/
-theorem runThunk_inv (t : Thunk) (h : Inv ps (t :: pend) w) : Inv ps pend (runThunk t w) := by
+theorem runThunk_inv (t : Thunk) (h : Inv ps (t :: pend) w) (htm : TimerOk w) : Inv ps pend (runThunk t w) := by
   cases t with
   | accept g c =>
-    exact accept_inv (InvC.dropPend h (Or.inl (by simp)) (Or.inl (by simp))) g c
+    exact accept_inv (InvC.dropPend h (Or.inl (by simp)) (Or.inl (by simp))) htm g c
   | discard c =>
     have h' := InvC.dropPend h (Or.inl (by simp)) (Or.inl (by simp))
     exact InvC.mono (k := core w) h' (ConnsLe.modify _ _ _ (by intro z; simp)) (fun t ht => ht)
-  | mgrLost => exact connectionLost_inv h
+  | mgrLost => exact connectionLost_inv h htm
   | stoppedD =>
     simp only [runThunk]
     by_cases hts : w.ts = .S_stoppingD
@@ -48,25 +49,26 @@ theorem runThunk_inv (t : Thunk) (h : Inv ps (t :: pend) w) : Inv ps pend (runTh
       have h' : InvC ps (Thunk.stoppedD :: pend) { core w with ts := .S_stopped, closed := w.closed + 1 } :=
         InvC.tsClosed (k := core w) h hts
       exact inv_core_eq (InvC.dropPend h' (Or.inl (by simp)) (Or.inr (by simp))) rfl
-    · exact tInput_inv (InvC.dropPend h (Or.inl (by simp)) (Or.inr hts)) _
+    · exact tInput_inv (InvC.dropPend h (Or.inl (by simp)) (Or.inr hts)) htm _
   | waiter id ok =>
     obtain ⟨ws, rg, e⟩ := resolveWaiter_same id ok w
     show Inv ps pend (resolveWaiter id ok w)
     rw [e]
     exact InvC.dropPend h (Or.inl (by simp)) (Or.inl (by simp))
 
-theorem runThunks_inv (l : List Thunk) : ∀ (w : World), Inv ps (l ++ pend) w → Inv ps pend (runThunks l w) := by
+theorem runThunks_inv (l : List Thunk) : ∀ (w : World), Inv ps (l ++ pend) w → TimerOk w → Inv ps pend (runThunks l w) := by
   induction l with
-  | nil => intro w h; exact h
+  | nil => intro w h _; exact h
   | cons t rest ih =>
-    intro w h
-    exact ih _ (runThunk_inv t h)
+    intro w h htm
+    exact ih _ (runThunk_inv t h htm) ((mm_runThunk t w).2 htm)
 
-theorem turn_inv (h : Inv ps [] w) : Inv ps [] (turn w) := by
+theorem turn_inv (h : Inv ps [] w) (htm : TimerOk w) : Inv ps [] (turn w) := by
   unfold turn
   apply runThunks_inv (pend := [])
-  simp only [List.append_nil]
-  exact InvC.startTurn (k := core w) h
+  · simp only [List.append_nil]
+    exact InvC.startTurn (k := core w) h
+  · exact htm
 
 /-- the environment's promise about one event: dilation messages come from a conformant peer
     whose dilation side is `ps`, and (Boss ordering) only once the key is known -/
@@ -79,12 +81,35 @@ theorem connectAs_inv (h : Inv ps [] w) (nm : Option String) : Inv ps [] (connec
   rw [e]
   exact InvC.mono (k := core w) h (ConnsLe.refl _) hq
 
-theorem step_inv (hps : ps < w.mySide ∨ w.mySide < ps) (h : Inv ps [] w) (e : Ev) (hok : okEv ps w e) :
+theorem ttOuts_inv (os : List TrafficTimer.Output) : ∀ v : World, Inv ps [] v → Inv ps [] (ttOuts os v).1 := by
+  induction os with
+  | nil => intro v h; exact h
+  | cons o os ih =>
+    intro v h
+    cases o
+    · simp only [ttOuts]
+      obtain ⟨t, e⟩ := beginTiming_same v
+      rcases hr : beginTiming v with ⟨u, er⟩
+      rw [hr] at e
+      simp only at e
+      subst e
+      cases er with
+      | none => simp only [andThen]; exact ih _ h
+      | some er => exact h
+    · simp only [ttOuts]
+      apply ih
+      unfold signalReconnect
+      split
+      · rename_i c _
+        exact InvC.mono (k := core v) h (disconnect_core c v).1 (fun t ht => ht)
+      · exact h
+
+theorem step_inv (hps : ps < w.mySide ∨ w.mySide < ps) (h : Inv ps [] w) (htm : TimerOk w) (e : Ev) (hok : okEv ps w e) :
     Inv ps [] (step w e).1 := by
   cases e with
   | dilate =>
     simp only [step]
-    have := dilate_inv hps h
+    have := dilate_inv hps h htm
     rcases hr : dilate w with ⟨w', e⟩
     rw [hr] at this
     cases e <;> exact this
@@ -108,7 +133,7 @@ theorem step_inv (hps : ps < w.mySide ∨ w.mySide < ps) (h : Inv ps [] w) (e : 
     by_cases hm : w.hasMgr = true
     · rw [if_pos hm]
       rw [if_pos hm] at hkey
-      have := receivedMsg_inv hps h hm hkey m hmsg
+      have := receivedMsg_inv hps h hm hkey m hmsg htm
       rcases hr : receivedMsg m w with ⟨w', e⟩
       rw [hr] at this
       cases e <;> exact this
@@ -141,11 +166,24 @@ theorem step_inv (hps : ps < w.mySide ∨ w.mySide < ps) (h : Inv ps [] w) (e : 
       · exact h
   | term i =>
     simp only [step]
-    have := tInput_inv (pend := []) h i
+    have := tInput_inv (pend := []) h htm i
     rcases hr : tInput termFuel i w with ⟨w', e⟩
     rw [hr] at this
     cases e <;> exact this
-  | turn => exact turn_inv h
+  | turn => exact turn_inv h htm
+  | expire =>
+    simp only [step]
+    split
+    · exact h
+    · split
+      · exact h
+      · split
+        · exact h
+        · rename_i st _ st' outs _
+          have hofres : ∀ r : Res, (ofRes r).1 = r.1 := by
+            intro r; obtain ⟨a, b⟩ := r; cases b <;> rfl
+          rw [hofres]
+          exact ttOuts_inv outs _ h
   | lready k =>
     simp only [step]
     split
@@ -287,6 +325,24 @@ theorem connectAs_mySide (nm : Option String) (v : World) : (connectAs nm v).myS
   obtain ⟨ws, wn, q, mo, e, _⟩ := connectAs_same nm v
   rw [e]
 
+theorem ttOuts_mySide (os : List TrafficTimer.Output) : ∀ v : World, (ttOuts os v).1.mySide = v.mySide := by
+  induction os with
+  | nil => intro v; rfl
+  | cons o os ih =>
+    intro v
+    cases o
+    · simp only [ttOuts]
+      have := (keep_beginTiming v).mySide
+      rcases hr : beginTiming v with ⟨u, er⟩
+      rw [hr] at this
+      cases er with
+      | none => simp only [andThen]; rw [ih]; exact this
+      | some er => exact this
+    · simp only [ttOuts]
+      rw [ih]
+      unfold signalReconnect
+      split <;> rfl
+
 theorem step_mySide (v : World) (e : Ev) : (step v e).1.mySide = v.mySide := by
   cases e with
   | dilate =>
@@ -370,6 +426,17 @@ theorem step_mySide (v : World) (e : Ev) : (step v e).1.mySide = v.mySide := by
     rw [hr] at this
     cases e <;> exact this
   | turn => simp only [step, turn]; rw [runThunks_mySide]
+  | expire =>
+    simp only [step]
+    split
+    · rfl
+    · split
+      · rfl
+      · split
+        · rfl
+        · have hofres : ∀ r : Res, (ofRes r).1 = r.1 := by
+            intro r; obtain ⟨a, b⟩ := r; cases b <;> rfl
+          rw [hofres, ttOuts_mySide]
   | lready k =>
     simp only [step]
     split
@@ -407,22 +474,26 @@ def okRun (ps : String) : World → List Ev → Prop
   | _, [] => True
   | w, e :: es => okEv ps w e ∧ okRun ps (step w e).1 es
 
-theorem run_inv (es : List Ev) : ∀ (w : World), (ps < w.mySide ∨ w.mySide < ps) → Inv ps [] w → okRun ps w es →
-    Inv ps [] (run w es) := by
+theorem run_inv (es : List Ev) : ∀ (w : World), (ps < w.mySide ∨ w.mySide < ps) → Inv ps [] w → TimerOk w → okRun ps w es →
+    Inv ps [] (run w es) ∧ TimerOk (run w es) := by
   induction es with
-  | nil => intro w _ h _; exact h
+  | nil => intro w _ h htm _; exact ⟨h, htm⟩
   | cons e es ih =>
-    intro w hps h hok
+    intro w hps h htm hok
     simp only [run]
     apply ih
     · rw [step_mySide]; exact hps
-    · exact step_inv hps h e hok.1
+    · exact step_inv hps h htm e hok.1
+    · exact (mm_step w e).2 htm
     · exact hok.2
 
 theorem run_mySide (es : List Ev) (w : World) : (run w es).mySide = w.mySide := by
   induction es generalizing w with
   | nil => rfl
   | cons e es ih => simp only [run]; rw [ih, step_mySide]
+
+theorem init_timerOk (nl al : Bool) (my : String) : TimerOk (World.init nl al my) := by
+  intro h; simp [World.init] at h
 
 theorem init_inv (nl al : Bool) (my : String) : Inv ps [] (World.init nl al my) := by
   refine ⟨?_, ?_, ?_, ?_, ?_, ?_, ?_, ?_, ?_, ?_, ?_⟩ <;> simp [core, World.init, Manager.init, Terminator.init, active, inConn]
